@@ -297,6 +297,15 @@ class QintImp(int, Qtype):
         if not issubclass(tright[0], Qtype):
             raise TypeErrorException(tright[0], Qtype)
 
+        # x & (y - 1) equals x mod y only when y is a power of two: a constant that is not one
+        # is rejected (a non constant y is still assumed to hold a power of two)
+        if cls.is_const(tright):
+            y = sum(2**i for i, b in enumerate(tright[1]) if b is True or b == true)
+            if y == 0 or (y & (y - 1)) != 0:
+                raise Exception(
+                    f"mod is supported only with a power of two ({y} given)"
+                )
+
         tval = tright[0].sub(tright, tright[0].const(1))
         return tleft[0].bitwise_and(tleft, tval)
 
